@@ -558,3 +558,89 @@ func TestC10Chan(t *testing.T) {
 	})
 	c.sample(map[string]any{"kind": "chan", "vals": []int{1, 2, 3}, "mode": "unbuffered-producer"})
 }
+
+// integer iterators over every integer type, including bounds that do not fit in an int: the loop is
+// left after a few iterations (a range over a huge bound is always left by break)
+func firstKeys[N interface {
+	~int | ~int8 | ~int16 | ~int32 | ~int64 | ~uint | ~uint8 | ~uint16 | ~uint32 | ~uint64 | ~uintptr
+}](n N, max int) (native, got []string) {
+	// range over an integer n of type N visits N(0) .. n-1 (nothing for n <= 0); a type parameter has no
+	// core type to range over, so the specification is spelled out
+	cnt := 0
+	for i := N(0); i < n; i++ {
+		native = append(native, fmt.Sprintf("%T:%v", i, i))
+		cnt++
+		if cnt >= max {
+			break
+		}
+	}
+	it := seq.NewIntegerIter(n)
+	for len(got) < max && it.MoveNext() {
+		k := it.Current().Key
+		got = append(got, fmt.Sprintf("%T:%v", k, k))
+	}
+	return
+}
+
+type myInt int16
+
+func TestC10IntegerTypes(t *testing.T) {
+	c := coll("C10")
+	c.rule(ruleC10)
+	check := func(name string, native, got []string) {
+		c.eval("inttype"+name, len(native) >= 2, "integer-types")
+		if !reflect.DeepEqual(native, got) {
+			violation(t, &Replay{Property: "C10", Kind: "integer-types", Input: name,
+				What: fmt.Sprintf("NewIntegerIter(%s): first keys %v, native range %v", name, got, native), Got: got, Want: native})
+		}
+	}
+	{
+		n, g := firstKeys(int8(127), 200)
+		check("int8(127)", n, g)
+	}
+	{
+		n, g := firstKeys(int8(-5), 5)
+		check("int8(-5)", n, g)
+	}
+	{
+		n, g := firstKeys(uint8(255), 300)
+		check("uint8(255)", n, g)
+	}
+	{
+		n, g := firstKeys(uint16(3), 10)
+		check("uint16(3)", n, g)
+	}
+	{
+		n, g := firstKeys(int64(1)<<40, 4)
+		check("int64(1<<40)", n, g)
+	}
+	{
+		n, g := firstKeys(uint64(1)<<63, 4)
+		check("uint64(1<<63)", n, g)
+	}
+	{
+		n, g := firstKeys(^uint64(0), 4)
+		check("uint64(max)", n, g)
+	}
+	{
+		n, g := firstKeys(^uint(0), 3)
+		check("uint(max)", n, g)
+	}
+	{
+		n, g := firstKeys(^uintptr(0), 3)
+		check("uintptr(max)", n, g)
+	}
+	{
+		n, g := firstKeys(uint32(0), 3)
+		check("uint32(0)", n, g)
+	}
+	{
+		n, g := firstKeys(myInt(4), 10)
+		check("myInt(4)", n, g)
+	}
+	{
+		n, g := firstKeys(int64(-1)<<62, 3)
+		check("int64(min/2)", n, g)
+	}
+	c.sample(map[string]any{"kind": "integer-types", "input": "uint64(1<<63), first 4 keys"})
+}
